@@ -1,7 +1,8 @@
 """C13  One client serialises operations on a mutable node  (Engine G, model checking).
 
 One client, a mutable file F and a directory D on 3 real storage servers.  The node is obtained
-TWICE through NodeMaker.create_from_cap with the same string (must be the same object) and the
+TWICE through NodeMaker.create_from_cap - once from the cap alone, once as (write-cap, read-cap) the way a
+parent directory hands out its children - for the same capability (must be the same object) and the
 operations of a sequence are requested back-to-back, alternating between the two references,
 without waiting for each other:
    file:  EVERY ordered sequence of 2 (quick) / 3 (thorough) operations from
@@ -86,8 +87,10 @@ def execute(case, prefix, seed):
             cap = b[0][1].get_uri()
             del b
             n1 = c.nodemaker.create_from_cap(cap)
-            n2 = c.nodemaker.create_from_cap(cap)
-            if n1 is not n2:
+            # second reference by the other route: (write-cap, read-cap) as a parent directory hands it out
+            n2 = c.nodemaker.create_from_cap(cap, n1.get_readonly_uri())
+            n3 = c.nodemaker.create_from_cap(cap)
+            if n1 is not n2 or n1 is not n3:
                 viol.append(("same-cap-different-node-objects", "create_from_cap returned two distinct objects for one write-cap: operations through them would not be serialised"))
             from allmydata.mutable.common import MODE_WRITE
             bsm = g.wait(n1.get_servermap(MODE_WRITE))     # servermap for upload(), taken before the sequence starts
@@ -144,8 +147,8 @@ def execute(case, prefix, seed):
             g.wait(dn.set_uri(u"c", caps["c"], None))
             g.quiesce()
             d1 = c.nodemaker.create_from_cap(dn.get_uri())
-            d2 = c.nodemaker.create_from_cap(dn.get_uri())
-            if d1._node is not d2._node:
+            d2 = c.nodemaker.create_from_cap(dn.get_uri(), dn.get_readonly_uri())
+            if d1._node is not d2._node or c.nodemaker.create_from_cap(dn.get_uri())._node is not d1._node:
                 viol.append(("same-cap-different-node-objects", "two directory nodes for one cap do not share their backing mutable node"))
             MutableFileNode._do_serialized = wrapped
             boxes, exp, listing = [], [], {"c"}
